@@ -369,6 +369,10 @@ def main(argv):
     except MachineryError as e:
         print('MACHINERY ERROR: %s' % e)
         return 2
+    except Exception:
+        import traceback
+        print('MACHINERY ERROR (internal): ' + traceback.format_exc())
+        return 2
 
 
 def _count_keys(fs):
